@@ -1,9 +1,10 @@
 (* Extract.v — extraction of the executable model and monitors to OCaml (ExtrOcamlBasic only;
    Z, positive and nat keep their extracted inductive representations). *)
 From Inj Require Import Base X86 EncAmd64 Os Injector Amd64Install Monitor A64 EncArm64 A32 EncArm Sig.
-From Inj Require Counter Lock Async.
+From Inj Require Counter Lock Async FakeMacro.
+From Inj.gen Require FakeArms.
 Require Extraction.
 Require Import ExtrOcamlBasic.
 Extraction Language OCaml.
-Extraction "model.ml" install alloc_given alloc_jit enc_amd64 kernel_fixed step scope_exit inj0 xdecode xexec regs0 enc_arm64 HI_FIXED HI_PINNED adecode aexec afetch write enc_arm rstep rdecode print exec_gate accepts_bool accepts_bool_pinned erase Lock.accept Lock.init Async.arun Async.ainit Async.astep Counter.run Counter.admitted Counter.verdict Counter.ctr os0 mem0 check_reach check_bool
+Extraction "model.ml" install alloc_given alloc_jit enc_amd64 kernel_fixed step scope_exit inj0 xdecode xexec regs0 enc_arm64 HI_FIXED HI_PINNED adecode aexec afetch write enc_arm rstep rdecode print exec_gate accepts_bool accepts_bool_pinned erase Lock.accept Lock.init Async.arun Async.ainit Async.astep FakeMacro.run_arm FakeMacro.ref_call FakeMacro.arm_wf FakeMacro.arm_canonical FakeArms.fake_arms Counter.run Counter.admitted Counter.verdict Counter.ctr os0 mem0 check_reach check_bool
   Z.add Z.mul Z.sub Z.modulo Z.div Z.eqb Z.ltb Z.leb Z.of_nat Z.to_nat.
